@@ -60,4 +60,36 @@ def C17(s, known):
                             "(model). C17Trace: all 28 x 14 chords crd lists, through the whole real pipeline (describe -> text conv -> write -> SMF)")
 
 
-PLANS = {"C17": C17, "C15": C15, "C14": C14, "C13": C13, "C03": C03}
+def C08(s, known):
+    s.build()
+    sm = s.drive("smfsanity")
+    s.model("SMFSanity", workers=2, files=[(sm["dir"] + "/records.ndjson", "records.ndjson")])
+    m = s.drive("c08")
+    if m["extra"]["files"] < m["evaluations"] * 0.5:
+        raise __import__("vcheck").Undecided("fewer than half of the generated documents produced a file")
+    s.validate(m, "SMF", cfg="C08Trace.cfg", known=known, shard=max(20, len_records(m) // 12 + 1))
+    return dict(level="model_checking",
+                explanation="SMF.tla reads every byte of every file the real `crd write` produced (one TLC state per byte) and re-derives the "
+                            "event list of the harness reader; SMFSanity: the recogniser accepts hand-built minimal files and rejects each corruption class")
+
+
+def len_records(m):
+    return m["traces"]
+
+
+def _write(prop, driver, expl):
+    def plan(s, known):
+        s.build()
+        s.model("TheoryMC", workers=4)
+        m = s.drive(driver)
+        s.validate(m, "WriteTrace", cfg=prop + "Trace.cfg", known=known, shard=max(20, len_records(m) // 12 + 1))
+        return dict(level="model_checking", explanation=expl)
+    return plan
+
+
+C01 = _write("C01", "c01", "every chord of every generated document: sounded keys (decoded from the SMF bytes) = bass + chord tones computed by Piece.tla/Theory.tla with the key in force")
+C02 = _write("C02", "c02", "every chord's strikes at Start(i) and releases at Start(i+1), with exact rational arithmetic and either neighbour at a half tick")
+C06 = _write("C06", "c06", "merged events of --track N = those of --track 1; every track's end-of-track at the total length")
+C07 = _write("C07", "c07", "control events demanded by the document (and flags) present at the start of their instance with the written value, nothing else; velocity persistence and order")
+
+PLANS = {"C01": C01, "C02": C02, "C06": C06, "C07": C07, "C08": C08, "C17": C17, "C15": C15, "C14": C14, "C13": C13, "C03": C03}
